@@ -13,6 +13,8 @@ struct oracle_t final : function_t
     long                                     inf_at{-1}, inf_at2{-1};
     mutable long                             gcount{0};
     bool                                     consistent{true};
+    std::vector<std::vector<double>>         pre_g; ///< concrete answers of the first evaluations (optional): gradient
+    std::vector<double>                      pre_f; ///< ... and value
 
     explicit oracle_t(tensor_size_t n, bool is_convex = false, bool is_smooth = true)
         : function_t("oracle", n)
@@ -28,8 +30,15 @@ struct oracle_t final : function_t
         for (tensor_size_t i = 0; i < x.size(); ++i) xx.push_back(x(i));
         xs.push_back(xx);
         const bool inf = (k == inf_at || k == inf_at2);
+        const bool pre = static_cast<size_t>(k) < pre_f.size();
+        // pinned answers stay symbols (constrained by an equality) so that the arithmetic on them is exact
         fs.push_back(inf ? std::numeric_limits<double>::infinity() : sym_real(sym_nm("f", k)));
-        for (tensor_size_t i = 0; i < x.size(); ++i) gg.push_back(sym_real(sym_nm("g", k, i)));
+        if (pre && !inf) sym_assume_cmp(fs.back(), SYM_EQ, pre_f[static_cast<size_t>(k)]);
+        for (tensor_size_t i = 0; i < x.size(); ++i)
+        {
+            gg.push_back(sym_real(sym_nm("g", k, i)));
+            if (pre) sym_assume_cmp(gg.back(), SYM_EQ, pre_g[static_cast<size_t>(k)][static_cast<size_t>(i)]);
+        }
         gs.push_back(gg);
         // the oracle is a function: equal query points give equal answers
         if (consistent)
